@@ -625,41 +625,59 @@ def work_items(tier, seed):
                         nxt.extend(h + [op] for op in ops)
                     level = nxt
                 items.extend({"phase": ph, "prefix": h} for h in level)
+                if tier == "thorough" or os.environ.get("MXMC_AUDIT"):
+                    reset_world()
+                    for op in alphabet(World(sc), b):
+                        items.append({"phase": ph, "prefix": [op], "audit": True})
         finally:
             reset_world()
-    items.sort(key=lambda it: -(BOUNDS[tier][it["phase"]]["depth"] - len(it["prefix"])))
+    items.sort(key=lambda it: -(BOUNDS[tier][it["phase"]]["depth"] - len(it["prefix"])
+                                - (0.5 if it.get("audit") else 0)))
     return items
 
 
+def run_audit(item, tier):
+    """Canon audit: explore below a 1-op prefix to depth-1 with and without state merging; the sets of
+    canonical states and of (state, op, clause) violation keys must coincide."""
+    b = BOUNDS[tier][item["phase"]]
+    counts = {}
+    extra = {}
+    with Scratch() as sc:
+        try:
+            c2, c3 = {}, {}
+            v_m, s_m, k_m = explore(item["prefix"], b["depth"] - 1, sc, b, True, c2, set(), None)
+            v_u, s_u, k_u = explore(item["prefix"], b["depth"] - 1, sc, b, False, c3, set(), None)
+        finally:
+            reset_world()
+    counts["audit_transitions_unmerged"] = c3.get("transitions", 0)
+    counts["audit_transitions_merged"] = c2.get("transitions", 0)
+    counts["audit_states"] = len(s_m)
+    mism = int(s_m != s_u) + int(k_m != k_u)
+    counts["audit_mismatch"] = mism
+    counts["audit_items"] = 1
+    if mism:
+        extra["canon_audit_mismatch_items"] = [item]
+    res = {"counts": counts, "outcomes": [], "samples": [], "violations": []}
+    if extra:
+        res["extra"] = extra
+    return res
+
+
 def run_item(item, tier):
+    if item.get("audit"):
+        return run_audit(item, tier)
     b = BOUNDS[tier][item["phase"]]
     counts = {}
     outcomes = set()
     samples = []
-    extra = {}
     with Scratch() as sc:
         try:
             viols, states, vkeys = explore(item["prefix"], b["depth"], sc, b, True, counts, outcomes, samples)
-            if tier == "thorough" or os.environ.get("MXMC_AUDIT"):
-                c2 = {}
-                v_m, s_m, k_m = explore(item["prefix"], b["depth"] - 1, sc, b, True, c2, set(), None)
-                c3 = {}
-                v_u, s_u, k_u = explore(item["prefix"], b["depth"] - 1, sc, b, False, c3, set(), None)
-                counts["audit_transitions_unmerged"] = c3.get("transitions", 0)
-                counts["audit_transitions_merged"] = c2.get("transitions", 0)
-                mism = int(s_m != s_u) + int(k_m != k_u)
-                counts["audit_mismatch"] = mism
-                counts["audit_items"] = 1
-                if mism:
-                    extra["canon_audit_mismatch_items"] = [item]
         finally:
             reset_world()
     for k in ("states", "transitions"):
         counts["%s[%s]" % (k, b["id"])] = counts.get(k, 0)
-    res = {"counts": counts, "outcomes": sorted(outcomes), "samples": samples, "violations": viols}
-    if extra:
-        res["extra"] = extra
-    return res
+    return {"counts": counts, "outcomes": sorted(outcomes), "samples": samples, "violations": viols}
 
 
 def check_case(case):
@@ -796,7 +814,8 @@ def coverage(agg, tier):
     }
     if "audit_items" in c:
         cov["canon_audit"] = "ok" if c.get("audit_mismatch", 0) == 0 else "mismatch"
-        cov["canon_audit_depth"] = "depth-1 of every phase"
+        cov["canon_audit_depth"] = "depth-1 of every phase, below every 1-op prefix"
+        cov["canon_audit_states"] = c.get("audit_states", 0)
         cov["canon_audit_transitions_unmerged"] = c.get("audit_transitions_unmerged", 0)
         cov["canon_audit_transitions_merged"] = c.get("audit_transitions_merged", 0)
     return cov
